@@ -21,7 +21,7 @@ CHECKS = {
     "C06": C("runtime monitoring: independent HMAC chain compared with all 10 derivation routes; capacity probes under panic capture",
              "Held on the enumerated/explored inputs: every secret length 0…M+8 for 11 capacities (Ok iff it fits, never a panic), every secret length 0–40 and every day of the listed years through all 10 routes, random dates 1–9999, odd regions/services; read-back equals input.", "§4 C06"),
     "C07": C("runtime monitoring: ptrace single-step instruction-trace monitor with a byte-wise memcmp/bcmp override and determinism/sensitivity controls",
-             "Held on the traced probes: refusals of one request under one key whose signatures differ only in which characters are wrong (every first-difference position in thorough) execute identical instruction-address sequences (count + hash), in the release build and, for the plain probe group, in an unoptimised build; a harness-local early-exit compare shows position-dependent traces in the same set-up. Instruction sequence only, not micro-architectural timing.", "§4 C07",
+             "Held on the traced probes (request shapes: both carriers, session token, S3 mode, folded form POST, requirement sets, skewed clock, richer identities): refusals of one request under one key whose signatures differ only in which characters are wrong (every first-difference position in thorough) execute identical instruction-address sequences (count + hash), in the release build and, for the plain probe group, in an unoptimised build; a harness-local early-exit compare shows position-dependent traces in the same set-up. Instruction sequence only, not micro-architectural timing.", "§4 C07",
              note="Trusts ptrace single-stepping and that forks of one warmed single-threaded parent share layout, allocator state and hash seeds (checked by the determinism control each run); the memcmp/bcmp override is verified effective by the sensitivity control each run."),
     "C08": C("runtime monitoring: panic/abort monitor at the API boundary over hostile workloads; child-process exit status for heavy inputs; thorough adds ASan, valgrind memcheck, Miri and a coverage-guided (libFuzzer + ASan) run of the generators",
              "Held on K observed executions: no panic, hang or abnormal exit over dictionary-guided hostile requests, every charset label × body shapes, limit-length URIs and ≥ 64 KiB / 1 MiB bodies, direct calls of canonicalisers / authenticator builder / key types, builders and error conversions; sanitizer runs clean in the thorough tier. Says nothing about inputs not generated.", "§4 C08"),
